@@ -22,6 +22,9 @@ def run(ctx):
                         "(C08-R4: decided against a freshly opened frame, at the exact boundary `free < 16 + payload length`), and the flag table gives "
                         "first/intermediary/last by position (C08-R1) — otherwise a packet that fits exactly goes out as a lone first segment that no "
                         "decoder ever completes")
+    res.rule("C01-R6", "the decoder accepts what the encoder sends: the payload validators reject exactly the protocol's error conditions (C04-R3: CAN / "
+                        "CAN-FD error flags and error position, Ethernet error bits, tested at their wire positions) — a validator that also tests an "
+                        "informational bit (BRS, ESI, …) turns well-formed packets into invalid ones on the way back")
     res.not_decided += ["byte equality of decoded and original packets over all batches x frame sizes (run-time values)",
                         "tagging with the encoder's ids (C09-R3), mixed batches (C08-R3), layout premises (C12), decoder premises (C04/C05)"]
     n1 = E.rule_segment_source_advances(res, "C01-R1", m)
@@ -38,6 +41,11 @@ def run(ctx):
     D.rule_declared_length(res, "C01-R4", dm)
     D.rule_segment_ends_walk(res, "C01-R4", dm)
     D.rule_segment_plumbing(res, "C01-R4", dm)
+    from rules import c04
+    for o in c04.run(ctx).obligations:
+        if o["rule"] == "C04-R3" and o["key"].startswith("error-bits"):
+            res.check(o["ok"], "C01-R6", o["key"], o["loc"], o["detail"], o["detail"])
+    res.floor("C01-R6", 2)
     res.floor("C01-R1", 1, n1)
     res.floor("C01-R4", 25)
     res.floor("C01-R2", 9)
